@@ -685,8 +685,11 @@ class Infer:
         if isinstance(e, ast.Call) and isinstance(e.func, ast.Attribute):
             if e.func.attr == "join" and isinstance(e.func.value, ast.Constant) and e.func.value.value == sep and e.args:
                 return self.possible_segments(e.args[0], scope, sep, _depth + 1, _seen)
-            if e.func.attr == "split" and e.args and isinstance(e.args[0], ast.Constant) and e.args[0].value == sep:
-                return self.possible_segments(e.func.value, scope, sep, _depth + 1, _seen)
+            if e.func.attr in ("split", "partition", "rpartition", "rsplit") and e.args and isinstance(e.args[0], ast.Constant) \
+                    and e.args[0].value == sep:
+                got = self.possible_segments(e.func.value, scope, sep, _depth + 1, _seen)
+                # partition also yields the separator itself (and empty strings), which are not attribute names
+                return got
         if isinstance(e, ast.Name):
             f = scope if isinstance(scope, Func) else None
             while f is not None:
@@ -731,7 +734,7 @@ class Infer:
     def _binding_strings(self, b, f, depth):
         if b[0] == "unpack" and b[1][0] == "assign":
             v = b[1][1]
-            if (isinstance(v, ast.Call) and isinstance(v.func, ast.Attribute) and v.func.attr == "split"
+            if (isinstance(v, ast.Call) and isinstance(v.func, ast.Attribute) and v.func.attr in ("split", "partition", "rpartition", "rsplit")
                     and v.args and isinstance(v.args[0], ast.Constant) and isinstance(v.args[0].value, str)):
                 return self.possible_segments(v.func.value, f, v.args[0].value)
         if b[0] == "param":
